@@ -53,10 +53,18 @@ def check(ctx):
         inner = prog.adt_by_name("AutoDespawnSignalInner")
         sig = prog.adt_by_name("AutoDespawnSignal")
         desp = prog.adt_by_name("AutoDespawner")
-        new = A.method(prog, "AutoDespawnSignal", "new")
         prep = A.method(prog, "AutoDespawner", "prepare")
-        try_recv = A.method(prog, "AutoDespawner", "try_recv")
         gc = A.free_fn(prog, A.TABLE["gc"])
+        # the two small private helpers may have been inlined into their only callers (the payload is then built in
+        # prepare(), the channel is then read by the collector itself): same obligations, other site
+        try:
+            new = A.method(prog, "AutoDespawnSignal", "new")
+        except mir.AnchorLost:
+            new = None
+        try:
+            try_recv = A.method(prog, "AutoDespawner", "try_recv")
+        except mir.AnchorLost:
+            try_recv = None
         drop = A.trait_method(prog, "AutoDespawnSignalInner", "Drop", "drop")
         clone = A.trait_method(prog, "AutoDespawnSignal", "Clone", "clone")
         ent = A.method(prog, "AutoDespawnSignal", "entity")
@@ -64,19 +72,26 @@ def check(ctx):
         ctx.fail("C10.anchor", "anchor-lost", "", str(e))
         return
     for b in (new, prep, try_recv, gc, drop, clone, ent):
-        ctx.touch(b, calls=len(list(b.iter_calls())))
+        if b is not None:
+            ctx.touch(b, calls=len(list(b.iter_calls())))
+    build = new if new is not None else prep        # where the payload is built
+    recv = try_recv if try_recv is not None else gc  # where the channel is read
     # ---- C10.a one payload per prepare ----
     sites = []
     for body in prog.bodies:
         for b, i, st in body.iter_stmts():
             if st["k"] == "assign" and "agg" in st["rv"] and st["rv"]["agg"].get("adt") == inner["path"]:
                 sites.append((body, b))
-    ctx.check([s[0].path for s in sites] == [new.path], "C10.a", "AutoDespawnSignalInner:constructed-only-in-new", "%s:%d" % (new.file, new.line),
+    ctx.check([s[0].path for s in sites] == [build.path], "C10.a", "AutoDespawnSignalInner:constructed-only-in-new", "%s:%d" % (build.file, build.line),
               "single construction site", "payload constructed in %s" % [lib.fkey(s[0]) for s in sites])
-    callers = prog.callers_of(lambda n: n == new.path)
-    ctx.check([c[0].path for c in callers] == [prep.path], "C10.a", "AutoDespawnSignal::new:called-only-from-prepare", "%s:%d" % (prep.file, prep.line),
-              "single caller", "AutoDespawnSignal::new is called from %s" % [lib.fkey(c[0]) for c in callers])
-    ctx.check(new.raw.get("reachable") is False, "C10.a", "AutoDespawnSignal::new:private", "%s:%d" % (new.file, new.line), "", "AutoDespawnSignal::new is reachable from outside")
+    if new is not None:
+        callers = prog.callers_of(lambda n: n == new.path)
+        ctx.check([c[0].path for c in callers] == [prep.path], "C10.a", "AutoDespawnSignal::new:called-only-from-prepare", "%s:%d" % (prep.file, prep.line),
+                  "single caller", "AutoDespawnSignal::new is called from %s" % [lib.fkey(c[0]) for c in callers])
+        ctx.check(new.raw.get("reachable") is False, "C10.a", "AutoDespawnSignal::new:private", "%s:%d" % (new.file, new.line), "", "AutoDespawnSignal::new is reachable from outside")
+    else:
+        ctx.ok("C10.a", "AutoDespawnSignal::new:called-only-from-prepare", "%s:%d" % (prep.file, prep.line), "the payload is built in prepare() itself")
+        ctx.ok("C10.a", "AutoDespawnSignal::new:private", "%s:%d" % (prep.file, prep.line), "no separate constructor")
     for tr in ("Clone", "Copy"):
         ctx.check(not prog.type_impls(inner["path"], tr), "C10.a", "AutoDespawnSignalInner:not-%s" % tr, "%s:%d" % (inner["file"], inner["line"]),
                   "", "the payload is %s: a copy would send a second despawn signal" % tr)
@@ -87,11 +102,24 @@ def check(ctx):
     ctx.check(all(a == sig["path"] for a in cl_aggs), "C10.a", "AutoDespawnSignal::clone:constructs-no-payload", "%s:%d" % (clone.file, clone.line),
               "", "Clone constructs %s" % cl_aggs)
     # prepare passes its own entity and a clone of the despawner's sender
-    pn = [(b, t) for b, t, fr in prep.iter_calls() if fr and mir.fn_name(fr) == new.path]
-    okp = len(pn) == 1
-    if okp:
-        t = pn[0][1]
-        okp = lib.originates_from_arg(prep, t["args"][0], 2) and all(o[0] == "arg" and o[1] == 1 and o[-1] == ".sender" for o in origins(prep, t["args"][1]))
+    if new is not None:
+        pn = [(b, t) for b, t, fr in prep.iter_calls() if fr and mir.fn_name(fr) == new.path]
+        okp = len(pn) == 1
+        if okp:
+            t = pn[0][1]
+            okp = lib.originates_from_arg(prep, t["args"][0], 2) and all(o[0] == "arg" and o[1] == 1 and o[-1] == ".sender" for o in origins(prep, t["args"][1]))
+    else:
+        # built in place: the aggregate's entity operand is the entity argument, its sender operand a clone of self.sender
+        okp = False
+        for (bd_, b_) in sites:
+            for st_ in bd_.blocks[b_]["stmts"]:
+                if st_["k"] == "assign" and "agg" in st_["rv"] and st_["rv"]["agg"].get("adt") == inner["path"]:
+                    ag_ = st_["rv"]["agg"]
+                    fs_ = dict(zip(ag_.get("fields", []), ag_["ops"]))
+                    okp = "entity" in fs_ and "sender" in fs_ and lib.originates_from_arg(prep, fs_["entity"], 2)
+                    if okp:
+                        os_ = origins(prep, fs_["sender"])      # (provenance looks through Clone::clone)
+                        okp = bool(os_) and all(o[0] == "arg" and o[1] == 1 and o[-1] == ".sender" for o in os_)
     ctx.check(okp, "C10.a", "AutoDespawner::prepare:own-entity-own-sender", "%s:%d" % (prep.file, prep.line),
               "new(entity, self.sender.clone())", "prepare does not pass its entity argument and the despawner's own sender")
 
@@ -133,7 +161,7 @@ def check(ctx):
                     for adt, nm in lib.fields_in(p):
                         if adt == inner["path"]:
                             readers.setdefault(nm, set()).add(body.path)
-    allowed = {"entity": {new.path, drop.path, ent.path}, "sender": {new.path, drop.path}}
+    allowed = {"entity": {build.path, drop.path, ent.path}, "sender": {build.path, drop.path}}
     for f in ("entity", "sender"):
         extra = readers.get(f, set()) - allowed[f]
         ctx.check(not extra, "C10.b", "AutoDespawnSignalInner.%s:touched-only-by-new-drop%s" % (f, "-entity" if f == "entity" else ""), "",
@@ -151,13 +179,18 @@ def check(ctx):
     ru = {u for u in users["receiver"] if u[0] not in derived_clone}
     ctx.check(su and all(u[0] == prep.path and u[1] in ("Sender::clone", "Clone::clone") for u in su), "C10.c", "AutoDespawner.sender:only-cloned-in-prepare", "%s:%d" % (prep.file, prep.line),
               "sender used by %s" % sorted(su), "the despawner's sender is used elsewhere: %s" % sorted(su))
-    ctx.check(ru and all(u[0] == try_recv.path for u in ru), "C10.c", "AutoDespawner.receiver:only-read-in-try_recv", "%s:%d" % (try_recv.file, try_recv.line),
+    ctx.check(ru and all(u[0] == recv.path for u in ru), "C10.c", "AutoDespawner.receiver:only-read-in-try_recv", "%s:%d" % (recv.file, recv.line),
               "receiver used by %s" % sorted(ru), "the despawner's receiver is read elsewhere: %s" % sorted(ru))
-    ctx.check(try_recv.raw.get("reachable") is False, "C10.c", "AutoDespawner::try_recv:crate-private", "%s:%d" % (try_recv.file, try_recv.line), "",
-              "try_recv is callable from outside the crate (user code could steal despawn signals)")
-    tc = prog.callers_of(lambda n: n == try_recv.path)
-    ctx.check({c[0].path for c in tc} == {gc.path}, "C10.c", "AutoDespawner::try_recv:called-only-by-collector", "%s:%d" % (gc.file, gc.line),
-              "", "try_recv is called from %s" % sorted(lib.fkey(c[0]) for c in tc))
+    if try_recv is not None:
+        ctx.check(try_recv.raw.get("reachable") is False, "C10.c", "AutoDespawner::try_recv:crate-private", "%s:%d" % (try_recv.file, try_recv.line), "",
+                  "try_recv is callable from outside the crate (user code could steal despawn signals)")
+        tc = prog.callers_of(lambda n: n == try_recv.path)
+        ctx.check({c[0].path for c in tc} == {gc.path}, "C10.c", "AutoDespawner::try_recv:called-only-by-collector", "%s:%d" % (gc.file, gc.line),
+                  "", "try_recv is called from %s" % sorted(lib.fkey(c[0]) for c in tc))
+    else:
+        tc = []
+        ctx.ok("C10.c", "AutoDespawner::try_recv:crate-private", "%s:%d" % (gc.file, gc.line), "no separate receive method: the private receiver field is read by the collector only")
+        ctx.ok("C10.c", "AutoDespawner::try_recv:called-only-by-collector", "%s:%d" % (gc.file, gc.line), "the collector reads the channel itself")
     for adt in (sig, desp, inner):
         for f in adt["variants"][0]["fields"]:
             ctx.check(f["vis"] != "Public", "C10.c", "%s.%s:private-field" % (adt["path"].split("::")[-1], f["name"]), "%s:%d" % (adt["file"], adt["line"]),
@@ -182,7 +215,13 @@ def check(ctx):
               "signal = Arc<payload>", "signal is %s" % [f["ty"] for f in sf])
     # ---- C10.e collector ----
     Ls = LP.find_loops(gc)
-    okl = len(Ls) == 1 and Ls[0].driver is not None and mir.fn_name(op_fn(gc.blocks[Ls[0].driver]["term"]["func"])) == try_recv.path and not Ls[0].exits
+    def _drv_ok(L_):
+        dn_ = mir.fn_name(op_fn(gc.blocks[L_.driver]["term"]["func"]))
+        if try_recv is not None:
+            return dn_ == try_recv.path
+        # reads the channel itself: Receiver::try_recv on the despawner's receiver field
+        return lib.tail(dn_, 1) == "try_recv" and any(True for (b_, t_, n_, ch_) in lib.field_method_calls(gc, desp["path"], "receiver") if b_ == L_.driver)
+    okl = len(Ls) == 1 and Ls[0].driver is not None and _drv_ok(Ls[0]) and not Ls[0].exits
     ctx.check(okl, "C10.e", "garbage_collect_entities:drains-until-empty", "%s:%d" % (gc.file, gc.line), "single loop driven by try_recv with no other exit",
               "the collector does not drain the channel until it is empty")
     import c07
